@@ -1,6 +1,10 @@
 package ircserver
 
-import "gopkg.in/sorcix/irc.v2"
+import (
+	"strings"
+
+	"gopkg.in/sorcix/irc.v2"
+)
 
 // maxUsernameLen is the maximum number of bytes kept of a user name.
 const maxUsernameLen = 64
@@ -21,6 +25,9 @@ func (i *IRCServer) cmdUser(s *Session, reply *Replyctx, msg *irc.Message) {
 		// this session exceed the IRC line length limit, which truncates
 		// away the command and all parameters.
 		s.Username = s.Username[:maxUsernameLen]
+		// Do not keep a partial multi-byte character at the end: the state
+		// cannot be serialized with invalid UTF-8 in it.
+		s.Username = strings.ToValidUTF8(s.Username, "")
 	}
 	s.Realname = msg.Trailing()
 	s.updateIrcPrefix()
